@@ -121,6 +121,36 @@ def _for_loop(F, body, sink, argi, proj=()):
     return {'H': H, 'X': _peel_iter(nxt[3][0]), 'S': S, 'N': N, 'br': br}
 
 
+def _for_each(F, call, sink_pats, argi):
+    """`X.for_each(|e| ..)` == `for e in X { .. }`: `call` is std's Iterator::for_each (which hands every element the
+    iterator yields to the closure, once each, and cannot stop early), its closure argument is ONE closure literal built at
+    the call, and every entry->return path of that closure passes a call of sink_pats whose argument `argi` IS the closure's
+    element parameter.  Returns dict(X = the iterated value with element-preserving adaptors peeled, K = closure body) or a
+    str saying what is wrong."""
+    if not (call.f and canon(call.f) in ('std::iter::Iterator::for_each', 'core::iter::Iterator::for_each') and len(call.args) == 2):
+        return 'not a call of Iterator::for_each'
+    k = arg_desc(F, call, 1)
+    if not (k[0] == 'agg' and k[1] == 'closure'):
+        return 'the argument of for_each is not a closure literal: %s' % D.render(k)[:160]
+    ks = [b for b in F.bodies.values() if b.canon == k[2] and b.kind == 'closure']
+    if len(ks) != 1 or ks[0].argc != 2:
+        return 'closure body of for_each not found'
+    K = ks[0]
+    live = K.live_blocks()
+    sinks = set()
+    for x in K.calls():
+        if x.bb in live and x.is_(*sink_pats) and len(x.args) > argi:
+            a = arg_desc(F, x, argi)
+            if a[0] == 'param' and a[1] == 2:
+                sinks.add(x.bb)
+    if not sinks:
+        return 'the for_each closure does not hand its element to the call'
+    p = path_avoiding(K, [0], K.return_blocks(), sinks)
+    if p:
+        return 'an iteration of the for_each closure can skip the call: ' + fmt_path(K, p)
+    return {'X': _peel_iter(arg_desc(F, call, 0)), 'K': K}
+
+
 def _none_edges(F, body, pred):
     """(from, to) of the None/Err edge of every branch on the discriminant of a value satisfying pred"""
     return {(br.bb, br.target(0)) for br in branches(F, body) if br.desc[0] == 'discr' and pred(br.desc[1])}
@@ -161,6 +191,15 @@ def rule_b(ctx):
                 why = 'the loop runs over %s, not over all of the lost packets stream_frames' % D.render(lp['X'])[:200]
             else:
                 heads.add(lp['H'])
+        # info.stream_frames.into_iter().for_each(|frame| streams.retransmit(frame)): the same loop as a closure
+        for x in flow_sinks(F, c, ['Iterator::for_each'], via_field='stream_frames', arg=0):
+            fe = _for_each(F, x, ['StreamsState::retransmit'], 1)
+            if isinstance(fe, str):
+                why = why or fe
+            elif not (fe['X'][0] == 'field' and fe['X'][2] == 'stream_frames' and _payload_of(fe['X'][1], c)):
+                why = why or 'for_each runs over %s, not over all of the lost packets stream_frames' % D.render(fe['X'])[:200]
+            else:
+                heads.add(x.bb)
         okflow = bool(heads) and bool(binds)
         if okflow:
             for bb in binds:
